@@ -188,6 +188,22 @@ def flag_sets(r, thorough):
         out.append(('random', d, b, dict(isherm=False, isorthonorm=False, istraceless=False)))
         # single element: isorthonorm True by definition
         out.append(('single', d, base[1:2].copy() * 2.5, dict(isorthonorm=True, istraceless=True)))
+    # non-Hermitian element sets whose Hilbert-Schmidt overlaps are purely IMAGINARY (the Gram matrix must be compared
+    # as a complex matrix): {A, iA}, {sigma_+, i sigma_+}, and {A, B + i*fac*atol*A} on both sides of the tolerance
+    for d in ([2, 3] if not thorough else [2, 3, 4]):
+        atol_o = EPS * (d * d) ** 3
+        A = r.standard_normal((d, d)) + 1j * r.standard_normal((d, d))
+        A = A / np.linalg.norm(A)
+        Bm = r.standard_normal((d, d)) + 1j * r.standard_normal((d, d))
+        Bm = Bm - np.vdot(A, Bm) * A
+        Bm = Bm / np.linalg.norm(Bm)
+        out.append(('imag-overlap A,iA', d, np.array([A, 1j * A]), dict(isorthonorm=False)))
+        sp = np.zeros((d, d), dtype=complex)
+        sp[0, 1] = 1.0
+        out.append(('imag-overlap s+,is+', d, np.array([sp, 1j * sp]), dict(isorthonorm=False)))
+        out.append(('imag-overlap partial', d, np.array([A, (Bm + 0.3j * A) / np.linalg.norm(Bm + 0.3j * A)]), dict(isorthonorm=False)))
+        for fac, ok in ((0.5, True), (2.0, False)):
+            out.append(('imag-overlap%+.1f' % fac, d, np.array([A, Bm + 1j * fac * atol_o * A]), dict(isorthonorm=ok)))
     # the witness of the pre-fix istraceless test
     out.append(('prefix-witness', 2, np.array([[[1, 5], [0, 1]], [[0, 1], [1, 0]]], dtype=complex), dict(istraceless=False)))
     out.append(('prefix-witness-row0', 2, np.array([[[1, 0], [5, 1]], [[0, 1], [1, 0]]], dtype=complex), dict(istraceless=False)))
@@ -205,6 +221,17 @@ def flag_cases(ctx):
             if got[k] != v:
                 fails.append(dict(kind='prop', observable='flag ' + k, signature='c14-flag-' + k,
                                   detail='%s: %s is %s on a set built to make it %s' % (tag, k, got[k], v), input=inp))
+        if len(b) > 1:
+            G = gram(b)
+            dev = np.abs(G - np.eye(len(b))).max()          # complex modulus: real AND imaginary parts
+            atol_o = EPS * (d * d) ** 3
+            indep = True if dev < 0.75 * atol_o else False if dev > 1.5 * atol_o else None
+            if indep is not None and got['isorthonorm'] != indep:
+                fails.append(dict(kind='prop', observable='flag isorthonorm', signature='c14-flag-isorthonorm',
+                                  detail='%s: isorthonorm is %s but the complex Gram matrix deviates from 1 by %.3g '
+                                         '(real part %.3g, imaginary part %.3g; tolerance %.3g)'
+                                         % (tag, got['isorthonorm'], dev, np.abs((G - np.eye(len(b))).real).max(),
+                                            np.abs(G.imag).max(), atol_o), input=inp))
         nm = 'f%d' % i
         defs.append((nm, "Definition %s : N*N*N := let O := IOB in flags_case O %d (%s) %s %s %s.\n"
                      % (nm, d, mats_lit(b), blit(got['isherm']), blit(got['isorthonorm']), blit(got['istraceless']))))
@@ -458,6 +485,9 @@ def partial_cases(ctx):
         g = arr(ff.Basis.ggm(d))
         rej = [('not-orthogonal', np.array([g[1], g[1] + 0.3 * g[2]]), None, 2),
                ('almost-orthogonal', np.array([g[1], g[2] + 1e-9 * g[1]]), None, 2),
+               ('imag-overlap A,iA', np.array([g[1] + 1j * g[2], 1j * (g[1] + 1j * g[2])]), None, 2),
+               ('imag-overlap s+,is+', np.array([(g[1] + 1j * g[1 + d * (d - 1) // 2]), 1j * (g[1] + 1j * g[1 + d * (d - 1) // 2])]), False, 2),
+               ('imag-overlap small', np.array([g[1] + 1j * g[2], (g[3] if d > 2 else g[1] - 1j * g[2]) + 1e-9j * (g[1] + 1j * g[2])]), None, 2),
                ('not-traceless-demanded', np.array([g[1] + 0.5 * np.eye(d), g[2]]), True, None),
                ('two-identities-demanded', np.array([g[1] + 0.5 * np.eye(d)]), True, 3)]
         for tag, el, trq, want in rej:
@@ -534,11 +564,18 @@ def replay(ctx, rep):
         elems = _arr(inp['elems']).astype(complex)
         labels = inp.get('labels')
         tr = inp.get('traceless')
+        d = elems.shape[-1]
+        G = gram(elems / np.linalg.norm(elems, axis=(1, 2))[:, None, None])
+        dev = np.abs(G - np.eye(len(elems))).max()
         try:
             res = ff.Basis.from_partial(elems.copy(), traceless=tr, labels=labels)
         except ValueError as e:
+            if dev > 1e-10 and 'not orthonormal' in str(e):
+                return True, 'replay: non-orthonormal set (complex Gram deviation %.3g) is rejected' % dev
             return False, 'replay: from_partial raises %s' % e
-        d = elems.shape[-1]
+        if dev > 1e-10:
+            return False, ('replay reproduces: from_partial ACCEPTS a set whose complex Gram matrix deviates from 1 by %.3g '
+                           '(real part %.3g, imaginary part %.3g)' % (dev, np.abs((G - np.eye(len(elems))).real).max(), np.abs(G.imag).max()))
         bad = check_onb(res, d)
         nrm = elems / np.linalg.norm(elems, axis=(1, 2))[:, None, None]
         B = arr(res)
@@ -553,7 +590,18 @@ def replay(ctx, rep):
     if case in ('flags', 'iscomplete'):
         b = _arr(inp['basis']).astype(complex)
         B = ff.Basis(b)
-        return True, 'replay: flags isherm=%s isorthonorm=%s istraceless=%s iscomplete=%s' % (B.isherm, B.isorthonorm, B.istraceless, B.iscomplete)
+        d = b.shape[-1]
+        if len(b) > 1:
+            G = gram(b)
+            dev = np.abs(G - np.eye(len(b))).max()
+            atol_o = EPS * (d * d) ** 3
+            indep = True if dev < 0.75 * atol_o else False if dev > 1.5 * atol_o else None
+            if indep is not None and bool(B.isorthonorm) != indep:
+                return False, ('replay reproduces: isorthonorm is %s but the complex Gram matrix deviates from 1 by %.3g '
+                               '(imaginary part %.3g, tolerance %.3g)' % (B.isorthonorm, dev, np.abs(G.imag).max(), atol_o))
+        if 'want' in inp and bool(B.iscomplete) != bool(inp['want']):
+            return False, 'replay reproduces: iscomplete is %s, independent SVD says %s' % (B.iscomplete, inp['want'])
+        return True, 'replay: flags isherm=%s isorthonorm=%s istraceless=%s iscomplete=%s agree with the independent predicates' % (B.isherm, B.isorthonorm, B.istraceless, B.iscomplete)
     if case in ('pauli', 'ggm'):
         b = ff.Basis.pauli(inp['n']) if case == 'pauli' else ff.Basis.ggm(inp['d'])
         bad = check_onb(b, b.d)
